@@ -1153,7 +1153,9 @@ func (fr *Frame) atCallChecks(ci ssa.CallInstruction, c *ssa.CallCommon) {
 			env.vars[fmt.Sprintf("ghost_arg%d", ai)] = TV{fr.val(a), a.Type()}
 		}
 		fr.resolveState = fr.cur
+		fr.softAtCall = true
 		t := fr.safeTr(env, ac)
+		fr.softAtCall = false
 		fr.resolveState = nil
 		fr.enc.oblige(fmt.Sprintf("atcall%d", i+1), fr.where(ci), "before calling "+ac.Kind+": "+ac.Text, ac.Tags, fr.curPC, t)
 	}
